@@ -75,15 +75,15 @@ theorem C11_pause_roundtrip (p : Pause) (hp : PauseOK p) :
       subst_vars; simp [setStateCtl]
 
 /-- what the state file can hand back for one service -/
-structure Restorable (v : Svc) : Prop where
+structure Restorable (good : List (Bytes × Bytes)) (v : Svc) : Prop where
   pause : PauseOK v.pause
   active : v.active.all validTarget = true
   rollout : ∀ ts, v.rollout = some ts → ts ≠ [] ∧ ts.all validTarget = true
-  init : initService v.opts ⟨true, true, true⟩ = .ok v.certMgr
+  init : initService v.opts ⟨good.contains (v.opts.tlsCertPath, v.opts.tlsKeyPath), true, true⟩ = .ok v.certMgr
 
 /-- One service survives the state file completely: name, every service and target option,
     active and rollout targets, pause state with message and max-pause, rollout split. -/
-theorem C11_svc_roundtrip (v : Svc) (h : Restorable v) : restoreSvc (snapOf v) = .ok v := by
+theorem C11_svc_roundtrip (good : List (Bytes × Bytes)) (v : Svc) (h : Restorable good v) : restoreSvc good (snapOf v) = .ok v := by
   unfold restoreSvc snapOf
   simp only
   rw [C11_pause_roundtrip v.pause h.pause]
@@ -106,16 +106,16 @@ theorem C11_svc_roundtrip (v : Svc) (h : Restorable v) : restoreSvc (snapOf v) =
     remaining states (every `Restorable`, TLS-synced table with unique names) is not finished:
     the per-service round trip above and the correspondence run carry the claim. -/
 def C11_full : Prop :=
-  ∀ cmds : List Cmd, (restoreCore (save (runCore cmds)).file).svcs = (runCore cmds).svcs
+  ∀ (good : List (Bytes × Bytes)) (cmds : List Cmd), (restoreCore good (save (runCore cmds)).file).svcs = (runCore cmds).svcs
 
 /-- If the service list does survive, nothing any later command can observe distinguishes the
     restarted proxy from the original: results and all later cores coincide, for every
     continuation. -/
-theorem C11_restart_invisible_partial (c : Core) (hfile : c.file = some (c.svcs.map snapOf))
-    (hrt : (restoreCore c.file).svcs = c.svcs) (cont : List Cmd) :
-    cont.foldl (fun k cmd => (stepCore k cmd).1) (stepCore c .restart).1 =
+theorem C11_restart_invisible_partial (good : List (Bytes × Bytes)) (c : Core) (hfile : c.file = some (c.svcs.map snapOf))
+    (hrt : (restoreCore good c.file).svcs = c.svcs) (cont : List Cmd) :
+    cont.foldl (fun k cmd => (stepCore k cmd).1) (stepCore c (.restart good)).1 =
     cont.foldl (fun k cmd => (stepCore k cmd).1) c := by
-  have : (stepCore c .restart).1 = c := by
+  have : (stepCore c (.restart good)).1 = c := by
     simp only [stepCore]
     cases c with
     | mk svcs file =>
@@ -137,11 +137,27 @@ def f21Hist : List Cmd :=
    .deploy (asciiB "api") [asciiB "api-a:80"] (o ["*.a.com"] ["/api"] false "" "") t ⟨true, true, true⟩]
 
 theorem C11_witness_F21 :
-    (runCore f21Hist).svcs.length = 2 ∧ (stepCore (runCore f21Hist) .restart).1.svcs = [] := by decide
+    (runCore f21Hist).svcs.length = 2 ∧
+    (stepCore (runCore f21Hist) (.restart [(asciiB "good.crt", asciiB "good.key")])).1.svcs = [] := by decide
+
+/-- F21, second shape (found by the thorough tier): the sub-path service was deployed *without* TLS but with
+    certificate paths that do not load (never looked at, so the deploy succeeded); it inherits "TLS on" from the
+    root service, the flag is persisted, and on restore its own unreadable certificate is loaded for the first
+    time: the restore fails and the proxy comes back empty. -/
+def f21bHist : List Cmd :=
+  let o (hosts prefixes : List String) (tls : Bool) (cert key : String) : SvcOptions :=
+    ⟨hosts.map asciiB, prefixes.map asciiB, tls, asciiB cert, asciiB key, true, [], [], [], true⟩
+  let t : TargetOptions := ⟨asciiB "/up", 1, 1, 1, false, false, 0, 0, 0, [], [], false⟩
+  [.deploy (asciiB "root") [asciiB "web-a:80"] (o ["a.com"] ["/"] true "good.crt" "good.key") t ⟨true, true, true⟩,
+   .deploy (asciiB "api") [asciiB "api-a:80"] (o ["a.com"] ["/api"] false "bad.crt" "good.key") t ⟨false, true, true⟩]
+
+theorem C11_witness_F21b :
+    (runCore f21bHist).svcs.length = 2 ∧
+    (stepCore (runCore f21bHist) (.restart [(asciiB "good.crt", asciiB "good.key")])).1.svcs = [] := by decide
 
 theorem C11_full_is_false : ¬ C11_full := by
   intro h
-  have := h f21Hist
+  have := h [(asciiB "good.crt", asciiB "good.key")] f21Hist
   revert this
   decide
 
